@@ -166,6 +166,7 @@ func loadWith(repo, tier, goarch string, tests bool, minLib int) (*Ctx, error) {
 	}
 	sort.Slice(c.ClientFuncs, func(i, j int) bool { return c.ClientFuncs[i].String() < c.ClientFuncs[j].String() })
 	sort.Slice(c.Funcs, func(i, j int) bool { return fname(c.Funcs[i]) < fname(c.Funcs[j]) })
+	buildCanonFields(c.Funcs)
 	c.eff = newEffEngine(c)
 	c.tables = newTableEval(c)
 	ctxByProg[c.Prog] = c
@@ -247,6 +248,164 @@ func (c *Ctx) Global(pkg, name string) *ssa.Global {
 		return g
 	}
 	return nil
+}
+
+// canonFields maps struct -> private field -> the name the exported API gives it: the lower-cased
+// remainder of the unique exported pure getter Get<X>/Is<X> that returns the field. Rules and the
+// reviewed tables name fields by this canonical name, so renaming a private field changes nothing.
+var canonFields = map[string]map[string]string{}
+
+// legacyFieldNames: where the getter's name and the field's name differ on the pinned tree, the
+// rules and tables use the field's name (struct.getterName -> name used here).
+var legacyFieldNames = map[string]string{"Lunar.jieQiTable": "jieQi", "Lunar.week": "weekIndex"}
+
+func fieldName(st types.Type, idx int) string {
+	s := st.Underlying().(*types.Struct)
+	raw := s.Field(idx).Name()
+	if nt, ok := st.(*types.Named); ok {
+		if c, ok := canonFields[nt.Obj().Name()][raw]; ok {
+			return c
+		}
+	}
+	return raw
+}
+
+func buildCanonFields(funcs []*ssa.Function) {
+	cand := map[string]map[string]map[string]bool{}
+	for _, fn := range funcs {
+		if fn.Signature.Recv() == nil || fn.Object() == nil || !fn.Object().Exported() || len(fn.Blocks) != 1 || len(fn.Params) != 1 {
+			continue
+		}
+		name := fn.Name()
+		switch {
+		case strings.HasPrefix(name, "Get") && len(name) > 3:
+			name = name[3:]
+		case strings.HasPrefix(name, "Is") && len(name) > 2:
+			name = name[2:]
+		default:
+			continue
+		}
+		for _, ins := range fn.Blocks[0].Instrs {
+			ret, ok := ins.(*ssa.Return)
+			if !ok || len(ret.Results) != 1 {
+				continue
+			}
+			ld, ok := ret.Results[0].(*ssa.UnOp)
+			if !ok || ld.Op != token.MUL {
+				continue
+			}
+			fa, ok := ld.X.(*ssa.FieldAddr)
+			if !ok || fa.X != ssa.Value(fn.Params[0]) {
+				continue
+			}
+			st := fa.X.Type().Underlying().(*types.Pointer).Elem()
+			nt, ok := st.(*types.Named)
+			if !ok {
+				continue
+			}
+			raw := st.Underlying().(*types.Struct).Field(fa.Field).Name()
+			tn := nt.Obj().Name()
+			if cand[tn] == nil {
+				cand[tn] = map[string]map[string]bool{}
+			}
+			if cand[tn][raw] == nil {
+				cand[tn][raw] = map[string]bool{}
+			}
+			cand[tn][raw][strings.ToLower(name[:1])+name[1:]] = true
+		}
+	}
+	for tn, fields := range cand {
+		used := map[string]int{}
+		for _, names := range fields {
+			if len(names) == 1 {
+				for n := range names {
+					used[n]++
+				}
+			}
+		}
+		for raw, names := range fields {
+			if len(names) != 1 {
+				continue
+			}
+			for n := range names {
+				if used[n] == 1 {
+					if canonFields[tn] == nil {
+						canonFields[tn] = map[string]string{}
+					}
+					if legacy, ok := legacyFieldNames[tn+"."+n]; ok {
+						n = legacy
+					}
+					if os.Getenv("LUNARLINT_DEBUG_CANON") != "" && n != raw {
+						fmt.Fprintf(os.Stderr, "canon %s.%s -> %s\n", tn, raw, n)
+					}
+					canonFields[tn][raw] = n
+				}
+			}
+		}
+	}
+	// fields without a getter: the name of the exported constructor's parameter that is stored into them
+	ctor := map[string]map[string]map[string]bool{}
+	for _, fn := range funcs {
+		if fn.Object() == nil || !fn.Object().Exported() || fn.Signature.Recv() != nil || !strings.HasPrefix(fn.Name(), "New") {
+			continue
+		}
+		for _, b := range fn.Blocks {
+			for _, ins := range b.Instrs {
+				st, ok := ins.(*ssa.Store)
+				if !ok {
+					continue
+				}
+				fa, ok := st.Addr.(*ssa.FieldAddr)
+				p, isP := st.Val.(*ssa.Parameter)
+				if !ok || !isP {
+					continue
+				}
+				if _, isAlloc := fa.X.(*ssa.Alloc); !isAlloc {
+					continue
+				}
+				t := fa.X.Type().Underlying().(*types.Pointer).Elem()
+				nt, ok := t.(*types.Named)
+				if !ok || !strings.HasPrefix(fn.Name(), "New"+nt.Obj().Name()) {
+					continue
+				}
+				raw := t.Underlying().(*types.Struct).Field(fa.Field).Name()
+				tn := nt.Obj().Name()
+				if _, has := canonFields[tn][raw]; has {
+					continue
+				}
+				if ctor[tn] == nil {
+					ctor[tn] = map[string]map[string]bool{}
+				}
+				if ctor[tn][raw] == nil {
+					ctor[tn][raw] = map[string]bool{}
+				}
+				ctor[tn][raw][p.Name()] = true
+			}
+		}
+	}
+	for tn, fields := range ctor {
+		taken := map[string]bool{}
+		for _, n := range canonFields[tn] {
+			taken[n] = true
+		}
+		for raw, names := range fields {
+			if len(names) != 1 {
+				continue
+			}
+			for n := range names {
+				if !taken[n] {
+					if canonFields[tn] == nil {
+						canonFields[tn] = map[string]string{}
+					}
+					if os.Getenv("LUNARLINT_DEBUG_CANON") != "" && n != raw {
+						fmt.Fprintf(os.Stderr, "canon(ctor) %s.%s -> %s\n", tn, raw, n)
+					}
+					canonFields[tn][raw] = n
+					taken[n] = true
+				}
+			}
+		}
+	}
 }
 
 // ctxByProg finds the analysis context of an SSA value (the evaluator folds literal tables through it).
